@@ -75,63 +75,8 @@ def cases(tier, seed):
 # ------------------------------------------------------------------------------------------ row -> trees
 
 
-def row_trees(mjm, rows, con_geom, sparse_cols=None):
-  """List (per row) of the sorted tree ids a constraint row touches."""
-  out = []
-  bt = mjm.body_treeid
-  for r in range(rows["nefc"]):
-    ty, i = int(rows["type"][r]), int(rows["id"][r])
-    ts = None
-    if ty == EQ:
-      et = int(mjm.eq_type[i])
-      if et in (int(mujoco.mjtEq.mjEQ_CONNECT), int(mujoco.mjtEq.mjEQ_WELD)):
-        o1, o2 = int(mjm.eq_obj1id[i]), int(mjm.eq_obj2id[i])
-        if int(mjm.eq_objtype[i]) == int(mujoco.mjtObj.mjOBJ_SITE):
-          o1, o2 = int(mjm.site_bodyid[o1]), int(mjm.site_bodyid[o2])
-        ts = [int(bt[o1]), int(bt[o2])]
-    elif ty == FDOF:
-      ts = [int(mjm.dof_treeid[i])]
-    elif ty == LJNT:
-      ts = [int(mjm.dof_treeid[mjm.jnt_dofadr[i]])]
-    elif ty in CONTACTS:
-      g1, g2 = con_geom[i]
-      if g1 >= 0 and g2 >= 0:
-        ts = [int(bt[mjm.geom_bodyid[g1]]), int(bt[mjm.geom_bodyid[g2]])]
-    if ts is None:
-      if sparse_cols is not None:
-        cols = sparse_cols[r]
-      else:
-        cols = np.nonzero(rows["J"][r])[0]
-      ts = [int(mjm.dof_treeid[c]) for c in cols]
-    out.append(sorted(set(t for t in ts if t >= 0)))
-  return out
-
-
-class Rows:
-  """Constraint rows of a whole batch, fetched once."""
-
-  def __init__(self, m, d):
-    self.sparse = bool(m.is_sparse)
-    self.type = d.efc.type.numpy()
-    self.id = d.efc.id.numpy()
-    self.nefc = np.minimum(d.nefc.numpy(), d.njmax)
-    if self.sparse:
-      self.rownnz = d.efc.J_rownnz.numpy()
-      self.rowadr = d.efc.J_rowadr.numpy()
-      self.colind = d.efc.J_colind.numpy().reshape(d.nworld, -1)
-    else:
-      self.J = d.efc.J.numpy()
-
-  def world(self, mjm, w):
-    n = int(self.nefc[w])
-    rows = {"nefc": n, "type": self.type[w][:n], "id": self.id[w][:n]}
-    if self.sparse:
-      ci = self.colind[w]
-      cols = [ci[self.rowadr[w][r] : self.rowadr[w][r] + self.rownnz[w][r]] for r in range(n)]
-    else:
-      rows["J"] = self.J[w][:n, : mjm.nv]
-      cols = None
-    return rows, cols
+row_trees = _isl.row_trees
+Rows = _isl.Rows
 
 
 # ------------------------------------------------------------------------------------------ invariants
